@@ -7,6 +7,12 @@ package main
 import (
 	"encoding/binary"
 	"encoding/json"
+	"go/ast"
+	"go/parser"
+	"fmt"
+	"go/token"
+	"strconv"
+	"strings"
 	"math/big"
 
 	"github.com/btcsuite/btcd/chaincfg"
@@ -41,6 +47,7 @@ import (
 	"github.com/polynetwork/poly/native/service/header_sync/zilliqa"
 	"github.com/polynetwork/poly/native/service/header_sync/zilliqalegacy"
 	"github.com/polynetwork/poly/native/service/utils"
+	"verif.local/engine/lib/src"
 	stc "github.com/starcoinorg/starcoin-go/client"
 	tmtypes "github.com/tendermint/tendermint/types"
 )
@@ -184,7 +191,7 @@ func routerSpecs() []routerSpec {
 			return mustJSON(&zilliqa.TxBlockAndDsComm{TxBlock: zilTxBlock(), DsBlock: zilDsBlock(), DsComm: []zcore.PairOfNode{}})
 		}},
 		{Name: "starcoin", Router: utils.STARCOIN_ROUTER, Genesis: func() []byte {
-			return mustJSON(stcGenesis())
+			return stcGenesis()
 		}},
 		{Name: "pixiechain", Router: utils.PIXIECHAIN_ROUTER, Genesis: func() []byte {
 			h, v := prevVals(n)
@@ -218,6 +225,47 @@ func zilDsBlock() *zcore.DsBlock {
 	return &zcore.DsBlock{BlockHeader: &zcore.DsBlockHeader{BlockNum: 2}}
 }
 
-func stcGenesis() *stc.BlockHeaderAndBlockInfo {
-	return &stc.BlockHeaderAndBlockInfo{}
+// stcGenesis: the starcoin router needs a fully populated header + block info in the starcoin JSON-RPC shape; the repo's own
+// test fixture (main-net header 2810118, native/service/header_sync/starcoin/header_sync_test.go) is read through lib/src.
+func stcGenesis() []byte {
+	fset := token.NewFileSet()
+	f, err := parser.ParseFile(fset, src.Path("native/service/header_sync/starcoin/header_sync_test.go"), nil, 0)
+	if err != nil {
+		panic(err)
+	}
+	for _, d := range f.Decls {
+		g, ok := d.(*ast.GenDecl)
+		if !ok || g.Tok != token.CONST {
+			continue
+		}
+		for _, sp := range g.Specs {
+			vs := sp.(*ast.ValueSpec)
+			if vs.Names[0].Name == "Header2810118" {
+				v, err := strconv.Unquote(vs.Values[0].(*ast.BasicLit).Value)
+				if err != nil {
+					panic(err)
+				}
+				// the vendored starcoin client wants num_leaves / num_nodes as strings (the fixture has numbers)
+				var m map[string]any
+				dec := json.NewDecoder(strings.NewReader(v))
+				dec.UseNumber()
+				if err := dec.Decode(&m); err != nil {
+					panic(err)
+				}
+				for _, k := range []string{"txn_accumulator_info", "block_accumulator_info"} {
+					ai := m["block_info"].(map[string]any)[k].(map[string]any)
+					for _, f := range []string{"num_leaves", "num_nodes"} {
+						ai[f] = fmt.Sprint(ai[f])
+					}
+				}
+				out := mustJSON(m)
+				var chk stc.BlockHeaderAndBlockInfo
+				if err := json.Unmarshal(out, &chk); err != nil {
+					panic(err)
+				}
+				return out
+			}
+		}
+	}
+	panic("starcoin fixture Header2810118 not found")
 }
